@@ -57,6 +57,9 @@ func ApplyWithCondition(blob []byte, ops []Op, cond *Condition) ([]byte, error) 
 		if err != nil {
 			return nil, fmt.Errorf("op %d (%s): %w", i, opName(op.Kind), err)
 		}
+		if err := validateOpValue(op); err != nil {
+			return nil, fmt.Errorf("op %d (%s): %w", i, opName(op.Kind), err)
+		}
 		if err := applyOp(skel, blob, op, path); err != nil {
 			return nil, fmt.Errorf("op %d (%s): %w", i, opName(op.Kind), err)
 		}
@@ -100,6 +103,9 @@ func evaluateCondition(skel *Skeleton, orig []byte, cond *Condition) error {
 	}
 
 	raw := leafBytes(cur.Target, orig)
+	if err := validateValue(cond.Threshold); err != nil {
+		return fmt.Errorf("condition: %w", err)
+	}
 	cmp, err := compareLeafBytes(raw, cond.Threshold)
 	if err != nil {
 		return fmt.Errorf("condition: %w", err)
